@@ -11,6 +11,11 @@ checks = {
    text=WHOLE + "decided, on every path of the current source, is the stack discipline the property rests on: only constructor/push/pop write the context stack; push/pop are exact; every pushing function returns balanced on every path (so any parse, valid or malformed, ends at the constructor's [Global] stack); the function/block contexts are pushed exactly by the function-body and block parsers, after '{' and before the body; CurrentContext/IsInFunction read last element / whole stack. Necessary conditions, each broken by a realistic edit the tests do not see (they never query the context).",
    ref="DESIGN.md §3 C16",
    note="Trusted: go/types, go/ssa (x/tools v0.29.0), the rule implementations. Plugins that push/pop themselves and panicking parses are outside the claim."),
+ "C14": dict(
+   technique="SSA effect/ownership analysis: interprocedural may-alias propagation over a VTA+CHA call graph (writes into tree/compiler/builders), read-only-use closure for package-level variables, dominance-based non-interference of the source-map switch and of pretty-only state",
+   text=WHOLE + "decided is a share-nothing argument over every function of the seven packages: package-level variables are never written after init and never aliased; compiling writes neither tree nor compiler; building writes neither builder and retains no writable builder state; token comment slices are fresh; the source-map switch controls only calls into package sourcemap and no sourcemap value reaches the code; the compact path reads no pretty-only state and debug.ToString uses a zero writer; no order-sensitive map range, no clock/random/unsafe/reflect, no goroutines. These imply race-freedom and isolation for every interleaving without observing any schedule - the quantifier the race-detector tests cannot exhaust.",
+   ref="DESIGN.md §3 C14",
+   note="Trusted: go/types, go/ssa, VTA over CHA (sound without unsafe/reflect, which R14.8 checks), the propagation's treatment of heap-stored references (a retained reference is itself reported). User interceptors and sharing one parser between goroutines are outside the claim."),
 }
 na_pending = "rule set designed in DESIGN.md §3 but not yet armed in xjscheck; not claimed until it is silent on the unchanged tree and shown to fire on seeded variants"
 all_ids = ["C%02d" % i for i in range(1, 17)]
